@@ -42,6 +42,7 @@ let engines : (string * (z list -> (z list * z list) list -> verdict)) list = [
   ("itermap", chk_itermap);
   ("mapbatch", chk_mapbatch);
   ("alias", chk_alias);
+  ("mapext", chk_mapext);
 ]
 
 let () =
